@@ -26,7 +26,7 @@ pub fn profile() -> Profile {
 pub fn run(ctx: &RunCtx) -> PropResult {
     let mut report = Report::default();
     let p = profile();
-    run_profile(ctx, &p, ctx.tier.pick(3000, 100_000), &mut report);
+    run_profile(ctx, &p, ctx.tier.pick(6000, 100_000), &mut report);
     PropResult {
         report,
         level: "exploration",
